@@ -141,6 +141,10 @@ def run(model: RepoModel, rep, tier: str):
                         "`import x, y`, a parameter list) is emitted inside that iteration, not once after the loop for the last name only", 30)
     generic2.check_per_iteration_values(model, rep, "C05.R11", sorted(r for r in model.modules if r.startswith("lang/") and r.endswith("_parser.py")),
                                         func_filter=generic2.emits(DECL_KEYS))
+    from .. import generic3
+    rep.rule("C05.R13", "a file is registered as a module under its own name: the stem and extension of a file name are taken with os.path.splitext, "
+                        "never by cutting at the first dot (`util.bak.py` is not module `util`)", 3)
+    generic3.check_path_string_ops(model, rep, "C05.R13", ["preparation.py", "lang/lang_analysis.py", IH])
     rep.rule("C05.R12", "no vacuous condition decides a binding: in the resolver and the scope / import builders no `E != a or E != b` "
                         "(always true) or `E == a and E == b` (always false) guards a branch", 3)
     generic2.check_vacuous_conditions(model, rep, "C05.R12", ["core/resolver.py", SH, IH, "basics/stmt_def_use_analysis.py"])
